@@ -15,6 +15,7 @@ import (
 	"os"
 	"strconv"
 	"strings"
+	"unicode"
 	"unicode/utf16"
 	"unicode/utf8"
 )
@@ -196,6 +197,31 @@ func strconvChecks() []result {
 	return []result{r}
 }
 
+// unicodeChecks: the assumed contracts of unicode.IsSpace (C01), IsDigit and IsLetter (C32), exhaustively over the
+// range they speak about.
+func unicodeChecks() []result {
+	r := result{Name: "unicode.IsSpace on the Latin-1 spaces; unicode.IsDigit / IsLetter on 0..127 (and negative runes)", Bound: "exhaustive over the 8 listed spaces and the runes -2..127"}
+	for _, c := range []rune{'\t', '\n', '\v', '\f', '\r', ' ', 0x85, 0xA0} {
+		r.Cases++
+		if !unicode.IsSpace(c) {
+			r.Failed++
+			r.First = fmt.Sprintf("IsSpace(%#x) is false", c)
+		}
+	}
+	for c := rune(-2); c < 128; c++ {
+		r.Cases++
+		if unicode.IsDigit(c) != ('0' <= c && c <= '9') {
+			r.Failed++
+			r.First = fmt.Sprintf("IsDigit(%#x)", c)
+		}
+		if unicode.IsLetter(c) != (('A' <= c && c <= 'Z') || ('a' <= c && c <= 'z')) {
+			r.Failed++
+			r.First = fmt.Sprintf("IsLetter(%#x)", c)
+		}
+	}
+	return []result{r}
+}
+
 func main() {
 	seed := int64(1)
 	if s := os.Getenv("VERIF_SEED"); s != "" {
@@ -221,6 +247,9 @@ func main() {
 	}
 	if which == "all" || which == "C16" {
 		all = append(all, strconvChecks()...)
+	}
+	if which == "all" || which == "C01" || which == "C32" {
+		all = append(all, unicodeChecks()...)
 	}
 	bad := 0
 	for _, r := range all {
